@@ -414,8 +414,18 @@ func run(raw json.RawMessage) (hx.Case, error) {
 			a.TickLater()
 		}
 		panicked, pmsg = hx.Try(func() {
-			if err := engine.Run(); err != nil {
+			// quiescence is reached after at most a few thousand cycles; a run that is still
+			// producing events after 200,000 cycles (a livelock) is cut and NOT closed by End
+			const limit = timing.VTimeInPicoSec(200_000_000)
+			if err := engine.RunUntil(limit); err != nil {
 				panic(err)
+			}
+			before := engine.CurrentTime()
+			if err := engine.RunUntil(limit + 50_000); err != nil {
+				panic(err)
+			}
+			if engine.CurrentTime() > before && engine.CurrentTime() > limit-50_000 {
+				panic("no quiescence: the network is still busy after 200,000 cycles")
 			}
 		})
 	}
@@ -436,6 +446,9 @@ func run(raw json.RawMessage) (hx.Case, error) {
 			hx.N(m.RspTo), hx.N(classID(m.TrafficClass)), zz(int64(m.TrafficBytes)))
 	}
 	var tr []string
+	if panicked && len(log) > 3000 {
+		log = log[:3000] // a livelocked run: keep the case file small; it is rejected anyway (no End)
+	}
 	for _, e := range log {
 		tr = append(tr, hx.App(e.Kind, hx.N(intern(e.Port)), metaCoq(e.Meta)))
 		o.Events = append(o.Events, fmt.Sprintf("%s %s %d", e.Kind, e.Port, e.Meta.ID))
